@@ -341,7 +341,7 @@ def canonical(obs, dest_hint):
         (p, d), = nonempty.items()
         return ok("ok 1 " + fmt_s(p) + " " + fmt_s(d.decode("utf-8", "replace")))
     if not nonempty:
-        return ok("silent")
+        return ok("silent")       # exit status 0 and nothing written: never the case since fix e014bd6
     return ok("several-files " + " ".join(sorted(nonempty)))
 
 
@@ -1140,12 +1140,12 @@ def cases(ctx):
                                    "cls": "argv:dashdash-value"}))
 
     # ---- t_report: the report of a refused command line / input, line by line
-    for tool, argv, txt, cls in (("cnfshuffle", ["--bogus"], good, "report:no-prefix"), ("cnfshuffle", [], "garbage", "report:no-prefix"),
-                                 ("cnfshuffle", ["-i", "missing"], "", "report:no-prefix"),
-                                 ("kthlist2pebbling", ["--bogus"], goodk, "report:no-prefix"),
-                                 ("kthlist2pebbling", ["nosuch"], goodk, "report:no-prefix"),
-                                 ("kthlist2pebbling", [], "x", "report:prefixed"),
-                                 ("kthlist2pebbling", [], "2\n1 : 2 0\n", "report:prefixed")):
+    for tool, argv, txt, cls in (("cnfshuffle", ["--bogus"], good, "report"), ("cnfshuffle", [], "garbage", "report"),
+                                 ("cnfshuffle", ["-i", "missing"], "", "report"),
+                                 ("kthlist2pebbling", ["--bogus"], goodk, "report"),
+                                 ("kthlist2pebbling", ["nosuch"], goodk, "report"),
+                                 ("kthlist2pebbling", [], "x", "report"),
+                                 ("kthlist2pebbling", [], "2\n1 : 2 0\n", "report")):
         out.append(build("t_report", {"tool": tool, "argv": argv, "stdin": ["bytes", txt], "cls": cls}))
     for c in out:
         c.info.setdefault("tier", tier)
